@@ -40,12 +40,23 @@ IMPL = {
     "tx_ser": lambda t: txgen.api_ser(txgen.norm_tx(t)),
     "txid": lambda b: _bits().tx.txid(b),
     "txin_default": lambda o, s: _bits().tx.txin(o, s),          # default sequence argument
+    # `bits tx --decode` through the command line (harness/cli.py): the ids it prints
+    "cli_tx_ids": lambda b, fmt, style: txgen.cli_decode(b, fmt, style)[:2],
 }
+
+
+def model_call(c):
+    """cli_tx_ids is compared with the EXISTING model op tx_deser (its txid / wtxid components)"""
+    if c["op"] == "cli_tx_ids":
+        return "c04_tx_deser", [c["args"][0]]
+    return "c04_" + c["op"], c["args"]
 
 
 def canon(c, v):
     if c["op"] == "tx_deser":
         return txgen.canon_tx_deser(v)
+    if c["op"] == "cli_tx_ids" and len(v) == 2 and len(v[0]) == 4:
+        return [v[0][0], v[0][1]]          # model ((txid, wtxid, raw, tx), leftover) -> the two printed ids
     return v
 
 
@@ -101,11 +112,35 @@ def gen_cases(rng, tier):
         out.append(case("txid-fn", "txid", rng.randbytes(rng.randrange(0, 100))))
     for _ in range(500 if T else 50):
         out.append(case("rand-bytes", "tx_deser", rng.randbytes(rng.randrange(0, 80))))
+    # the command line: `bits tx --decode` prints these ids (trailing bytes are tolerated: only a log warning)
+    cli_txs = []
+    for s in txgen.SEQS + [rng.randbytes(4)]:
+        for sw in (False, True):
+            t = txgen.gen_tx(rng, n_in=rng.choice([1, 2]), n_out=rng.choice([1, 2]), segwit=sw)
+            t = (t[0], [(i[0], i[1], i[2], s) for i in t[1]], t[2], t[3], t[4])
+            cli_txs.append(("seq-%s-%s" % (s.hex() if s in txgen.SEQS else "random", "segwit" if sw else "legacy"), t))
+    cli_txs.append(("nout-253", txgen.gen_tx(rng, n_in=1, n_out=253, out_lens=[0, 1], segwit=True)))
+    cli_txs.append(("witstack-mixed-empty", txgen.gen_tx(rng, n_in=3, segwit=True, stack_sizes=(0, 2))))
+    for _ in range(60 if T else 0):
+        cli_txs.append(("rand", txgen.gen_tx(rng, n_in=rng.randrange(1, 4), n_out=rng.randrange(0, 3), segwit=rng.random() < 0.5)))
+    other = txgen.ref_ser(cli_txs[1][1])
+    for k, (cls, t) in enumerate(cli_txs):
+        ser = txgen.ref_ser(t)
+        trs = txgen.trailers(rng, ser, other)
+        trs = trs if T else [trs[0], trs[1 + k % 4], trs[5]]
+        for j, (tn, tr) in enumerate(trs):
+            fmts = ("hex", "raw", "bin") if (T or j == 0) else (("hex", "raw", "bin")[(k + j) % 3],)
+            for fmt in fmts:
+                out.append(case("cli-ids-%s+%s" % (cls, tn), "cli_tx_ids", ser + tr, fmt, k + j, t=enc(t), nrest=len(tr)))
+    out.append(case("cli-ids-genesis", "cli_tx_ids", txgen.GENESIS_COINBASE, "hex", 0))
+    for fmt in ("hex", "raw", "bin"):
+        out.append(case("cli-ids-malformed", "cli_tx_ids", other[:20], fmt, 0))
+        out.append(case("cli-ids-malformed", "cli_tx_ids", b"", fmt, 1))
     return out
 
 
 def shrink(c):
-    if c["op"] == "tx_deser" and c.get("t"):
+    if c["op"] in ("tx_deser", "cli_tx_ids") and c.get("t"):
         t = txgen.norm_tx(dec(c["t"]))
         buf = c["args"][0]
         tr = buf[len(buf) - c["nrest"]:] if c["nrest"] else b""
@@ -113,14 +148,14 @@ def shrink(c):
             if not t2[1]:
                 continue
             c2 = dict(c)
-            c2["args"] = [txgen.ref_ser(t2) + tr]
+            c2["args"] = [txgen.ref_ser(t2) + tr] + list(c["args"][1:])
             c2["t"] = enc(t2)
             yield c2
         if len(tr) > 1:
             for tr2 in (tr[:1], tr[:len(tr) // 2], tr[-4:]):
                 if len(tr2) < len(tr):
                     c2 = dict(c)
-                    c2["args"] = [txgen.ref_ser(t) + tr2]
+                    c2["args"] = [txgen.ref_ser(t) + tr2] + list(c["args"][1:])
                     c2["nrest"] = len(tr2)
                     yield c2
     elif c["op"] in ("tx_deser", "txid"):
@@ -187,6 +222,24 @@ def prop_oracle(c):
         a = c["args"]
         if m.txin(a[0], a[1]) != a[0] + txgen.ref_var(a[1]) + b"\xff\xff\xff\xff":
             return "txin(outpoint, script) does not end with the final sequence ffffffff"
+        return None
+    if c["op"] == "cli_tx_ids":
+        a = c["args"]
+        p = txgen.ref_parse(a[0])
+        try:
+            got = txgen.cli_decode(a[0], a[1], a[2])
+        except Exception as e:
+            return None if p is None else "bits tx --decode refuses a well-formed transaction: %s" % e
+        if isinstance(got[0], str):
+            return "bits tx --decode: %r" % (got,)
+        if p is None:
+            return None
+        t = txgen.norm_tx(p[0])
+        want = (txgen.hash256(txgen.ref_ser(t, with_witness=False)), txgen.hash256(txgen.ref_ser(t)))
+        if got[0] != want[0]:
+            return "bits tx --decode prints txid %s, HASH256 of the serialisation without witness is %s" % (got[0].hex(), want[0].hex())
+        if got[1] != want[1]:
+            return "bits tx --decode prints wtxid %s, HASH256 of the complete serialisation is %s" % (got[1].hex(), want[1].hex())
         return None
     if c["op"] != "tx_deser":
         return None
